@@ -31,6 +31,7 @@ fn registry() -> Vec<(&'static str, RunFn, ReplayFn)> {
         ("C12", props::c12::run, props::c12::replay),
         ("C13", props::c13::run, props::c13::replay),
         ("C14", props::c14::run, props::c14::replay),
+        ("C15", props::c15::run, props::c15::replay),
         ("C16", props::c16::run, props::c16::replay),
         ("C17", props::c17::run, props::c17::replay),
         ("C19", props::c19::run, props::c19::replay),
